@@ -155,9 +155,15 @@ def concatLoop : List (Option (List α)) → Nat → List α → Res (Nat × Lis
     let newOne ← fillLoop (fun x _ => x) target totalIndex 0 newOne
     concatLoop rest (totalIndex + target.length) newOne
 
+/-- `for _, slice := range slices { if slice == nil { continue }; totalLen += len(slice) }` -/
+def totalLenLoop : List (Option (List α)) → Nat → Nat
+  | [], totalLen => totalLen
+  | none :: rest, totalLen => totalLenLoop rest totalLen
+  | some slice :: rest, totalLen => totalLenLoop rest (totalLen + slice.length)
+
 def concat (z : α) (mine : List α) (slices : List (Option (List α))) : Res (List α) := do
   let mineLen := mine.length
-  let totalLen := slices.foldl (fun t s => match s with | none => t | some sl => t + sl.length) mineLen
+  let totalLen := totalLenLoop slices mineLen
   let newOne := mk totalLen z
   let newOne ← fillLoop (fun x _ => x) mine 0 0 newOne
   let (_, newOne) ← concatLoop slices mineLen newOne
